@@ -7,6 +7,7 @@ monotone is an assumption about `Instant`).
 -/
 import ChessVerif.Model.Engine
 import ChessVerif.Proofs.Search
+import ChessVerif.Proofs.CliGame
 
 namespace Chess.Props.C11
 open Chess Chess.Engine
@@ -101,5 +102,18 @@ theorem search_some_spec (b : Board) (hwf : b.WF = true) (tf : ThreeFold) (k pre
     (hf : firstPassFinished b tf k = true) (hm : (abs b).legalMoves ≠ []) :
     (search b tf k prev).move.isSome = true :=
   Proofs.Search.search_some_spec b hwf tf k prev hf hm
+
+/-! ### the consumer: the game loop of the command line (`Model/Cli.lean`) -/
+
+/-- **the command line never fails `assert!(board.move_mut(mv))` on a searched move**: from every well-formed board
+(every position its argument parser accepts, the standard start, every position it reaches), with every repetition table,
+and whatever the clock does — every list of poll indices at which the successive searches' time limits expire -/
+theorem cli_game_loop_never_asserts (fuel : Nat) (b : Board) (hwf : b.WF = true) (tf : ThreeFold) (prev : Nat)
+    (ks : List Nat) : Cli.gameLoop fuel b tf prev ks ≠ .error .assertMoveMut :=
+  Cli.gameLoop_never_asserts fuel b hwf tf prev ks
+
+/-- non-vacuity: with the limit expiring at once the loop ends with "no move" on the standard board -/
+example : (match Cli.gameLoop 3 Board.standard [] 0 [0] with
+    | .ok (o, _) => o == .noMove | .error _ => false) = true := by decide +kernel
 
 end Chess.Props.C11
